@@ -415,8 +415,16 @@ class DoIPDiscoverer(AsyncScript):
                 (source_address, data) = (payload.SourceAddress, payload.UserData)
                 current_target = target_template.format(source_address)
 
-                resp = TesterPresentResponse.parse_static(data)
-                logger.notice(f"[🥇] It cannot get nicer: {source_address:#x} responded: {resp}")
+                try:
+                    resp = TesterPresentResponse.parse_static(data)
+                    logger.notice(
+                        f"[🥇] It cannot get nicer: {source_address:#x} responded: {resp}"
+                    )
+                except Exception as e:
+                    # Not an answer to TesterPresent; keep listening for the other ECUs
+                    logger.warning(
+                        f"[🤨] {source_address:#x} responded with unexpected data {data.hex()}: {e!r}"
+                    )
 
                 if current_target not in responsive_targets:
                     responsive_targets.append(current_target)
